@@ -124,7 +124,12 @@ func nodeHashRule(c *core.Ctx, rule string) {
 		detail := ""
 		core.Instrs(gz, func(i ssa.Instruction) {
 			call, isC := i.(*ssa.Call)
-			if !isC || core.CallName(call) != "(hash.Hash).Sum" {
+			if !isC {
+				return
+			}
+			switch core.CallName(call) {
+			case "(hash.Hash).Sum", "github.com/ethereum/go-ethereum/crypto.Keccak256Hash", "github.com/ethereum/go-ethereum/crypto.Keccak256", "github.com/iden3/go-iden3-crypto/keccak256.Hash":
+			default:
 				return
 			}
 			got := lx.Of(call)
